@@ -16,7 +16,7 @@ RULE = (
     "entries inside real visits or padding"
 )
 REQUIRED = {"cmp_state_terms": 150, "cmp_suffstats": 150, "cmp_mstep": 60, "cmp_personalize": 20, "cmp_fit": 10, "twins_garbage": 30, "twins_widened": 12,
-            "masked_in_visit_entries_cases": 8, "padding_cases": 12}
+            "masked_in_visit_entries_cases": 8, "padding_cases": 12, "cmp_reput": 100}
 ASSUMPTIONS = [
     "garbage twins: bit-identity demanded (same shapes and op order; masked numbers must never enter a sum)",
     "widened twins: 5e-6 relative; MCMC-based personalisation and fits are not judged under widening (a one-ulp change may legitimately flip a "
@@ -266,5 +266,38 @@ def run_shard(spec, ctx):
             if has_in_visit or has_pad:
                 for fam in ("state_terms", "suffstats", "mstep", "personalize"):
                     ctx.distinct(case["model"], missing, twin_kind, gname or w, fam)
+        # ---- re-put relation: a state that already holds dataset A (fully evaluated) then receives dataset B must equal a fresh state
+        # loaded with B - in particular when B's numbers are those of A and only its mask differs (entries that became missing)
+        try:
+            import copy as _copy
+
+            rr = ctx.rng("reput", spec["k"], i)
+            tw_mask = _copy.deepcopy(ds)
+            obs = (ds.mask != 0)
+            drop = obs & torch.tensor(rr.random(tuple(ds.mask.shape)) < 0.3)
+            for f_ in range(ds.mask.shape[-1]):  # keep at least two observations per feature
+                if (obs[..., f_] & ~drop[..., f_]).sum() < 2:
+                    drop[..., f_] = False
+            tw_mask.mask = torch.where(drop, torch.zeros_like(ds.mask), ds.mask)
+            candidates = [("mask-reduced", tw_mask), ("garbage", make_twin(ds, rr, "garbage", "rand", 0)), ("widened", make_twin(ds, rr, "widened", None, 3))]
+            for label, B in candidates:
+                case = {"index": i, "model": list(map(str, g)), "missing": missing, "twin": f"reput-{label}", "garbage": None, "widen": None}
+                used = state_for(ds)
+                names = set(used.dag.sorted_variables_names)
+                for node in ("nll_attach_ind", "nll_attach", "n_obs", "n_obs_per_ft", "y_L2", "y_L2_per_ft", "model"):
+                    if node in names:
+                        used[node]
+                with used.auto_fork(None):
+                    model.put_data_variables(used, B)
+                fresh = state_for(B)
+                for v_, val_ in latents.items():
+                    pass
+                for node in ("nll_attach_ind", "nll_attach", "nll_attach_y_ind", "n_obs", "n_obs_per_ft", "y_L2", "y_L2_per_ft", "model", "y", "t"):
+                    if node in names:
+                        compare(f"state['{node}'] after re-putting a {label} dataset into a used state", "reput", fresh[node], used[node], True, case)
+                ctx.distinct(case["model"], missing, "reput", label)
+        except Exception as e:
+            ctx.count("reput_skipped")
+            ctx.note(f"reput_skipped_{type(e).__name__}", str(e)[:200])
         if i < 1:
             ctx.sample({"model": list(map(str, g)), "missing": missing, "twins": [[a, b, c] for a, b, c in twins], "n_visits": ds.n_visits_per_individual}, limit=1)
